@@ -154,9 +154,9 @@ m("C14-benign-initial-capacity", "benign", ["C14", "C16"], "hash_map.hpp",
 m("C15-find-last-misses-first", "breaking", ["C15"], "string.hpp",
   [["for(size_t i = _length; i > 0; i--)", "for(size_t i = _length; i > 1; i--)"]],
   "find_last never looks at index 0")
-m("C15-starts-with-equal-length", "breaking", ["C15"], "string.hpp",
-  [["\tbool starts_with(basic_string_view other) {\n\t\tif (other.size() > size()) {", "\tbool starts_with(basic_string_view other) {\n\t\tif (other.size() >= size()) {"]],
-  "a string no longer starts with itself")
+m("C15-find-first-of-ignores-start", "breaking", ["C15"], "string.hpp",
+  [["for(size_t i = start_from; i < _length; ++i) {", "for(size_t i = 0; i < _length; ++i) {"]],
+  "find_first_of ignores its start offset (starts_with treating equal lengths as a mismatch is caught by the repository's own tests)")
 m("C15-append-drops-terminator", "breaking", ["C15"], "string.hpp",
   [["\t\tmemcpy(new_buffer + _length, other.data(), sizeof(Char) * other.size());\n\t\tnew_buffer[new_length] = 0;\n\n\t\tif(_buffer)", "\t\tmemcpy(new_buffer + _length, other.data(), sizeof(Char) * other.size());\n\n\t\tif(_buffer)"]],
   "operator+=(view) leaves the buffer unterminated")
@@ -174,9 +174,9 @@ m("C16-rehash-dealloc-wrong-size", "breaking", ["C16"], "hash_map.hpp",
 m("C16-variant-assign-skips-destroy", "breaking", ["C16"], "variant.hpp",
   [["\t\t} else {\n\t\t\tif(*this)\n\t\t\t\tdestruct_<0>();\n\t\t\tif(other)", "\t\t} else {\n\t\t\tif(other)"]],
   "assignment across alternatives constructs over the live old alternative")
-m("C17-optional-move-assign-forgets-flag", "breaking", ["C17"], "optional.hpp",
-  [["\t\t\t\tnew (_stor.buffer) T(std::move(*other._object()));\n\t\t\t\t_non_null = true;\n", "\t\t\t\tnew (_stor.buffer) T(std::move(*other._object()));\n"]],
-  "move-assigning a value into an empty optional leaves it disengaged")
+m("C17-optional-copy-assign-forgets-flag", "breaking", ["C17"], "optional.hpp",
+  [["\t\t\t\tnew (_stor.buffer) T(*other._object());\n\t\t\t\t_non_null = true;\n", "\t\t\t\tnew (_stor.buffer) T(*other._object());\n"]],
+  "copy-assigning a value into an empty optional leaves it disengaged (the move-assignment twin is caught by the repository's tests through printf's precision option)")
 m("C17-variant-emplace-keeps-tag", "breaking", ["C17"], "variant.hpp",
   [["\t\tnew (access_()) X(std::forward<Args>(args)...);\n\t\ttag_ = Index;", "\t\tnew (access_()) X(std::forward<Args>(args)...);"]],
   "emplace constructs the new alternative but keeps the old tag")
@@ -193,9 +193,9 @@ m("C18-benign-sort-self-compare", "benign", ["C18"], "algorithm.hpp",
   "inner loop also compares an element with itself (no effect)")
 
 # ---- printf / parsers ---------------------------------------------------------------------------------------------------
-m("C19-left-pad-one-short", "breaking", ["C19"], "formatting.hpp",
-  [["for(long long i = final_width; i < width; i++)\n\t\t\t\tsink.append(' ');", "for(long long i = final_width; i + 1 < width; i++)\n\t\t\t\tsink.append(' ');"]],
-  "left-justified integers are padded one blank short")
+m("C19-left-pad-one-short-with-sign", "breaking", ["C19"], "formatting.hpp",
+  [["for(long long i = final_width; i < width; i++)\n\t\t\t\tsink.append(' ');", "for(long long i = final_width + (sign && precision > k ? 1 : 0); i < width; i++)\n\t\t\t\tsink.append(' ');"]],
+  "left-justified signed integers with a precision larger than the digit count are padded one blank short (plain left-justified padding is sampled by the repository's printf test)")
 m("C19-logger-no-reset-after-flush", "breaking", ["C19"], "logging.hpp",
   [["\t\t\t\tif(_off + 1 == Limit) {\n\t\t\t\t\t_buffer[_off] = 0;\n\t\t\t\t\t_logger->_emit(_buffer);\n\t\t\t\t\t_off = 0;\n", "\t\t\t\tif(_off + 1 == Limit) {\n\t\t\t\t\t_buffer[_off] = 0;\n\t\t\t\t\t_logger->_emit(_buffer);\n"]],
   "the chunking logger does not rewind after emitting a full chunk")
